@@ -100,6 +100,68 @@ SPELLINGS = ["abs", "bare", "dot", "sub", "dotdot", "parent"]
 FILE_NAMES = ["w.swc", "neuron 1.swc", "n", ".hidden.swc", "a.b.c.SWC", "çell-β.swc", "#1.swc", "x.swc.bak", "7"]
 
 
+# family "ext": what the file name ENDS in.  The format is given by the entry point (to_swc / from_swc), never by the name: the same text goes
+# into / comes out of a file whose extension is the usual one, none, a version / backup suffix, or the customary extension of ANOTHER format -
+# text tables, data dumps, archives and compressed files (names kept from a download, or chosen by a caller who compresses later).  The stem and
+# the letter case of the extension are drawn from the rng.
+EXTENSIONS = ["", ".swc", ".eswc", ".txt", ".csv", ".dat", ".json", ".xml", ".npy", ".h5", ".gz", ".swc.gz", ".bz2", ".xz", ".zip", ".zst", ".tar", ".7z",
+              ".lz4", ".Z", ".tmp", ".bak", ".orig", ".1", ".swc~", ".part"]
+STEMS = ["cell", "n", "neuron 1", "AA0001", "x.y", "çell", "7", "out"]
+
+
+def ext_name(rng, ext):
+    e = rng.choice([ext, ext, ext.upper(), ext.lower(), ext.title()])
+    return rng.choice(STEMS) + e
+
+
+# family "pos": a stream source is read FROM WHERE IT STANDS.  The written text is what the stream delivers from its current position on; in
+# front of it the same buffer / file holds something the caller has already consumed - a line of its own (a manifest, a '#' remark, a blank
+# line), the text of another tree (several trees kept in one container), or a few characters without a line end (a magic word) - consumed with
+# readline(), read(k) or skipped with seek(k).  Non-ASCII preambles make the character and the byte offset differ.
+PRE_KINDS = ["hash-line", "manifest", "blank", "row", "other-tree", "magic", "non-ascii", "none"]
+CONSUME = ["readline", "read", "seek"]
+
+
+def preamble(rng, what):
+    """the text in front of the SWC text; ends a line unless `what` is "magic" (then it is consumed by count)"""
+    w = lambda: rng.choice(WORDS)   # noqa: E731
+    if what == "hash-line":
+        return "".join(f"#{rng.choice(['', ' '])}{w()} {rng.randint(0, 999)}\n" for _ in range(rng.randint(1, 3)))
+    if what == "manifest":
+        return f"{w()}: {rng.randint(1, 99)} entries; {w()}\n"
+    if what == "blank":
+        return "\n" * rng.randint(1, 3)
+    if what == "row":
+        return small_rows(1, off=rng.randint(1, 50))
+    if what == "other-tree":
+        return f"# {w()}\n" + small_rows(rng.randint(2, 6))
+    if what == "magic":
+        return "".join(rng.choice("SWCTREE01%!") for _ in range(rng.randint(1, 8)))
+    if what == "non-ascii":
+        return f"# {draw_char(rng, 'latin1')}{w()}{draw_char(rng, 'bmp')} {draw_char(rng, 'astral')}\n"
+    return ""
+
+
+def positioned(kind, pre, how, text, fn=None):
+    """a stream of `kind` holding pre + text, standing at the first character of text after the caller consumed `pre` in the way `how`"""
+    if kind == "bytes":
+        src, unit = io.BytesIO((pre + text).encode("utf-8")), len(pre.encode("utf-8"))
+    elif kind == "text":
+        src, unit = io.StringIO(pre + text), len(pre)
+    else:
+        with open(fn, "w", encoding="utf-8") as f:
+            f.write(pre + text)
+        src, unit = open(fn, encoding="utf-8"), len(pre)
+    if how == "readline" and pre.endswith("\n"):
+        for _ in range(pre.count("\n")):
+            src.readline()
+    elif how == "seek" and kind != "textfile":
+        src.seek(unit)
+    else:   # read(k); also a text FILE's position is not a number to compute with, and a preamble without line end cannot be readline()d
+        src.read(unit)
+    return src
+
+
 def spelled(how, name, base):
     """(directory to run in, path as the caller spells it, the file's absolute location) for a file `name` under the fresh directory `base`"""
     sub = os.path.join(base, "sub")
@@ -282,7 +344,7 @@ class RoundTrip(Suite):
             used[0] += m
             return got
 
-        def mk(n, shape, coords=None, kind=None, forms=None, spell=None, before=None, chars=None):
+        def mk(n, shape, coords=None, kind=None, forms=None, spell=None, before=None, chars=None, ext=None, pos=None):
             coords = coords or rng.choice(["dyadic", "grid4", "wild", "float"])
             t = gen.tree_case(rng, n, shape, numbering=rng.choice(["sorted", "root0"]), coords=coords if coords in ("dyadic", "grid4") else "float", types="any")
             if coords == "wild":
@@ -311,6 +373,15 @@ class RoundTrip(Suite):
             if spell:
                 case["spell"] = {"how": spell, "name": rng.choice(FILE_NAMES)}
                 case["class"] = f"spell:{spell}/" + case["class"]
+            if ext is not None:
+                case["spell"] = {"how": rng.choice(SPELLINGS), "name": ext_name(rng, ext)}
+                case["class"] = f"ext:{ext or 'none'}/" + case["class"]
+            if pos:
+                pre = preamble(rng, pos[0])
+                # what cannot be done is done by count: readline() needs a line end, a text FILE's position is not a number to compute with
+                how = "read" if (pos[1] == "readline" and not pre.endswith("\n")) or (pos[1] == "seek" and case["kind"] == "textfile") else pos[1]
+                case["pos"] = {"pre": pre, "how": how}
+                case["class"] = f"pos:{pos[0]}:{how}/{case['kind']}/" + case["class"]
             if before:
                 case["before"] = before
                 case["class"] = "after:" + "+".join(b["op"] for b in before) + "/" + case["class"]
@@ -376,6 +447,21 @@ class RoundTrip(Suite):
                 kind = kinds[j % len(kinds)]; j += 1
                 forms = (rng.choice(["str", "pathlike", "bytes"]),) * 2 if kind in ("path", "path-write") else None
                 out.append(mk(rng.choice(small), shape, kind=kind, forms=forms, chars=stratum))
+        # family "ext" (see EXTENSIONS).  Guaranteed share: every extension once as the name the writer or the reader is given (both when widened)
+        j = rng.randrange(2)
+        for e in EXTENSIONS:
+            for _ in range(2 if more else 1):
+                shape = gen.pick_shape(rng, k); k += 1
+                f = rng.choice(["str", "str", "pathlike", "bytes"])
+                out.append(mk(rng.choice(small), shape, kind=["path-write", "path"][j % 2], forms=(f, f), ext=e)); j += 1
+        # family "pos" (see PRE_KINDS).  Guaranteed share: every kind of preamble through a text and a byte stream (and an open file over the
+        # run), every way of consuming it
+        j = rng.randrange(6)
+        for i, what in enumerate(PRE_KINDS):
+            for kind in ("text", "bytes") + (("textfile",) if more or (i + j) % 2 == 0 else ()):
+                for _ in range(2 if more else 1):
+                    shape = gen.pick_shape(rng, k); k += 1
+                    out.append(mk(rng.choice(small), shape, kind=kind, pos=(what, CONSUME[j % 3]))); j += 1
         # family "size" (see BIG_SHAPES).  Guaranteed share: one tree in each decade from 10^3 up to the 10^5 nodes of a whole-neuron
         # reconstruction (10^2 is covered by the ordinary sizes), through a different source kind each
         tops = {5: 140000 if not more else 200000}
@@ -495,7 +581,14 @@ class RoundTrip(Suite):
                 else:
                     stage[0] = "to_swc()"
                     text = cur.to_swc(**kw)
-                    if case["kind"] == "text":
+                    if case.get("pos"):
+                        if fh:
+                            fh.close()
+                        if case["kind"] == "textfile":
+                            tmp = tmp or tempfile.mkdtemp(prefix="c01_")
+                        src = positioned(case["kind"], case["pos"]["pre"], case["pos"]["how"], text, os.path.join(tmp, "r.swc") if tmp else None)
+                        fh = src if case["kind"] == "textfile" else None
+                    elif case["kind"] == "text":
                         src = io.StringIO(text)
                     elif case["kind"] == "bytes":
                         src = io.BytesIO(text.encode("utf-8"))
@@ -625,7 +718,8 @@ class RoundTrip(Suite):
         if "exc" in res:
             hist = "after " + " + ".join(b["op"] for b in case["before"]) + " earlier in the process, " if case.get("before") else ""
             return [("roundtrip-raises", f"write→read raised {res['exc']}: {res.get('msg')} ({hist}during {res.get('stage', '?')}, kind {case['kind']}"
-                                         + (f", path spelled {case['spell']['how']!r}" if case.get("spell") else "") + ")")]
+                                         + (f", path spelled {case['spell']['how']!r} named {case['spell']['name']!r}" if case.get("spell") else "")
+                                         + (f", stream standing behind {case['pos']['pre']!r} consumed by {case['pos']['how']}" if case.get("pos") else "") + ")")]
         t = tree_of(case)
         n = t["n"]
         out = []
@@ -666,7 +760,8 @@ class RoundTrip(Suite):
             if not ok:
                 cls = "header-added" if any(g.startswith("id type x y z r pid") for g in got_c) else "comments"
                 out.append((f"comments/{cls}", f"pass {k+1}: comments read back {h['comments']!r}; written {case['comments']!r} "
-                                               f"(source={case['source']!r}, comments={case['with_comments']})"))
+                                               f"(source={case['source']!r}, comments={case['with_comments']}"
+                                               + (f"; stream standing behind {case['pos']['pre']!r} consumed by {case['pos']['how']}" if case.get("pos") else "") + ")"))
                 break
             exp_comments = [g if e is None else e for e, g in zip(exp_comments, got_c)]
         return out[:3]
